@@ -157,6 +157,9 @@ define_ops! {
     borsh_dec = |s: BY| opt(borsh::from_slice::<Uint<B, L>>(&s));
     borsh_bits_dec = |s: BY| opt(borsh::from_slice::<Bits<B, L>>(&s));
     borsh_env_dec = |s: BY, mode: N, k: N| { let mut rd = Env::new(s, mode, k); let r = <Uint<B, L> as borsh::BorshDeserialize>::deserialize_reader(&mut rd); (opt(r), rd.pos) };
+    // digit-list parsers: every input byte is one digit
+    base_le_dec = |s: BY, b: W| opt(Uint::<B, L>::from_base_le(b, s.iter().map(|x| *x as u64)));
+    base_be_dec = |s: BY, b: W| opt(Uint::<B, L>::from_base_be(b, s.iter().map(|x| *x as u64)));
     borsh_reader_dec = |s: BY| { let mut b = &s[..]; let r = <Uint<B, L> as borsh::BorshDeserialize>::deserialize_reader(&mut b); (opt(r), s.len() - b.len()) };
     der_dec = |s: BY| opt(<Uint<B, L> as der::Decode>::from_der(&s));
     der_anyref_dec = |s: BY| opt(<der::asn1::AnyRef as der::Decode>::from_der(&s).and_then(Uint::<B, L>::try_from));
@@ -482,6 +485,16 @@ fn model(bits: usize, op: Op, args: &[V]) -> Expect {
         }
         ssz_dec | borsh_dec | borsh_bits_dec => {
             let den = if s().len() == nb { Some(BigUint::from_bytes_le(s())) } else { None };
+            may_accept(bits, den, None, true)
+        }
+        base_le_dec | base_be_dec => {
+            let b = args[1].as_n() as u64;
+            let den = if b >= 2 && s().iter().all(|x| (*x as u64) < b) {
+                let it: Vec<u8> = if op == base_le_dec { s().iter().rev().copied().collect() } else { s().to_vec() };
+                Some(it.iter().fold(BigUint::zero(), |acc, d| acc * b + *d as u64))
+            } else {
+                None
+            };
             may_accept(bits, den, None, true)
         }
         borsh_reader_dec | borsh_env_dec => {
@@ -887,6 +900,11 @@ fn decode_all(l: &mut Local, bits: usize, input: &[u8]) {
         exec(l, bits, Op::compact_dec, &args);
         exec(l, bits, Op::compact_opaque_dec, &args);
     }
+    // the digit-list parsers with every byte as one digit
+    for b in [3u64, 10, 255, 256, u64::MAX] {
+        exec(l, bits, Op::base_le_dec, &[args[0].clone(), V::N(b as u128)]);
+        exec(l, bits, Op::base_be_dec, &[args[0].clone(), V::N(b as u128)]);
+    }
     // a stream that delivers the bytes in pieces (3 bytes per read)
     exec(l, bits, Op::borsh_env_dec, &[args[0].clone(), V::n(0), V::n(3)]);
     for t in 0..PG_TYPES.len() {
@@ -915,6 +933,23 @@ fn valid_encodings(bits: usize, v: &BigUint) -> Vec<Vec<u8>> {
         rc::scale_bytes(&if v.is_zero() { vec![] } else { v.to_bytes_le() }),
         rc::bincode(v, (v.bits() as usize + 7) / 8),
     ];
+    for b in [3u32, 10, 255] {
+        let mut dg: Vec<u8> = vec![];
+        let mut t = v.clone();
+        while !t.is_zero() {
+            dg.push((&t % b).iter_u32_digits().next().unwrap_or(0) as u8);
+            t /= b;
+        }
+        // little endian, and with one / two surplus significant digits
+        encs.push(dg.clone());
+        let mut e = dg.clone();
+        e.push(1);
+        encs.push(e.clone());
+        e.push(2);
+        encs.push(e);
+        dg.reverse();
+        encs.push(dg);
+    }
     if fits {
         // full-width (zero-padded) hexadecimal text, bare and as a JSON string
         encs.push(format!("0x{:0>w$}", v.to_str_radix(16), w = 2 * nb).into_bytes());
